@@ -1014,6 +1014,15 @@ Proof.
   rewrite Er, Ec, Ep, Ew in E. apply app_inv_head in E. apply app_inv_tail in E. exact E.
 Qed.
 
+Lemma map_inj_on {A B} (f : A -> B) (l1 l2 : list A) :
+  (forall a b, In a l1 -> In b l2 -> f a = f b -> a = b) -> map f l1 = map f l2 -> l1 = l2.
+Proof.
+  revert l2; induction l1 as [|a l1 IH]; intros [|b l2] Hinj E; simpl in E; try discriminate; [reflexivity|].
+  inversion E as [[E1 E2]]. f_equal.
+  - apply Hinj; simpl; auto.
+  - apply IH; [|exact E2]. intros x y Hx Hy. apply Hinj; simpl; auto.
+Qed.
+
 Section Families.
   Variable H : bytes -> bytes.
 
@@ -1067,6 +1076,23 @@ Section Families.
     intros G Ef Ec Ep W1 W2 E. subst flow.
     destruct (encode_c_inj_gen H sp _ _ G W1 W2 E) as (_ & _ & _ & Ea & _). simpl in Ea.
     exact (flow_c_arch p1 p2 Ec Ep Ea).
+  Qed.
+
+  (* the ORDERED list of the extra files' contents is covered (H collision-free on the contents compared) *)
+  Theorem extra_files_ordered_c sp m r c1 c2 :
+    spec_good sp -> m = InOrder -> length c1 = length c2 ->
+    (forall a b, In a c1 -> In b c2 -> H a = H b -> a = b) ->
+    wf_c sp (set_extra r (extra_digests m H c1)) = true -> wf_c sp (set_extra r (extra_digests m H c2)) = true ->
+    encode_c H sp (set_extra r (extra_digests m H c1)) = encode_c H sp (set_extra r (extra_digests m H c2)) ->
+    c1 = c2.
+  Proof.
+    intros G Em El Hinj W1 W2 E. subst m. cbn [extra_digests] in *.
+    destruct (encode_c_inj_gen H sp _ _ G W1 W2 E) as (_ & _ & _ & _ & _ & hs & Hhs & Hc). simpl in Hc.
+    assert (Hnil : hs = []).
+    { destruct Hc as [[E1 _]|[E1 _]]; apply (f_equal (@length bytes)) in E1;
+        rewrite app_length, !map_length in E1; destruct hs; [reflexivity | simpl in E1; lia | reflexivity | simpl in E1; lia]. }
+    subst hs. rewrite !app_nil_r in Hc.
+    apply (map_inj_on H c1 c2 Hinj). destruct Hc as [[E1 _]|[E1 _]]; congruence.
   Qed.
 
   Theorem boundary_shift_c sp r pre a b s post :
@@ -1184,6 +1210,17 @@ Section Families.
     intros G Ef Er Ec Ep Ew W1 W2 E. subst flow.
     destruct (encode_pp_inj H H_hex sp _ _ G W1 W2 E) as (_ & _ & _ & Ea & _). simpl in Ea.
     exact (flow_p_arch p1 p2 Er Ec Ep Ew Ea).
+  Qed.
+
+  (* two different spellings of the input (both resolved only against cwd) never share a preprocessor-level pre-image *)
+  Theorem input_path_as_given sp m r cwd i1 i2 :
+    spec_good sp -> m = AsGiven ->
+    wf_p sp (set_path r (input_path_of m cwd i1)) = true -> wf_p sp (set_path r (input_path_of m cwd i2)) = true ->
+    encode_pp H sp (set_path r (input_path_of m cwd i1)) = encode_pp H sp (set_path r (input_path_of m cwd i2)) ->
+    input_path_of AsGiven cwd i1 = input_path_of AsGiven cwd i2.
+  Proof.
+    intros G Em W1 W2 E. subst m.
+    destruct (encode_pp_inj H H_hex sp _ _ G W1 W2 E) as (_ & _ & _ & _ & _ & _ & Ep & _). exact Ep.
   Qed.
 
   Theorem boundary_shift_p sp r pre a b s post :
